@@ -130,7 +130,15 @@ def check_case(case):
             exp = RW.evaluate_program(prog)
         except RW.Undefined:
             exp = None
-        if exp is not None and obs.outputs == exp:
+        sound = exp is not None and obs.outputs == exp
+        if exp is not None and not sound and obs.exception is None and not obs.errored:
+            # the run "succeeded" with other outputs than the reference: if the other execution
+            # loop reproduces the reference, the program is in the sound region and this loop
+            # skipped or repeated jobs
+            other = "cf" if case.get("worker") == "debug" else "debug"
+            obs2 = schedcase.run_case(dict(case, worker=other, precache=0), d / "other")
+            sound = obs2.outputs == exp
+        if sound:
             want = set(schedcase.expected_jobs(prog)) - pre_tokens
             got = set(started)
             if got != want:
@@ -153,9 +161,14 @@ def check_case(case):
 
 
 @st.composite
-def cases(draw):
-    prog = draw(G.programs(max_nodes=5, allow_nested=False, allow_wf_split=False))
-    worker = draw(st.sampled_from(["sched", "sched", "sched", "debug", "cf"]))
+def cases(draw, workers=("sched", "sched", "sched", "debug", "cf")):
+    prog = draw(st.one_of(
+        G.mixed_programs(max_nodes=5, allow_nested=False, allow_wf_split=False),
+        G.mixed_programs(max_nodes=5, allow_nested=False, allow_wf_split=False),
+        # nodes that end up with zero jobs (split over a list that is empty at run time) and nodes
+        # downstream of them
+        G.template_programs(allow_nested=False, shapes=["inner_chain"])))
+    worker = draw(st.sampled_from(list(workers)))
     case = dict(prog=prog, worker=worker, choices=draw(st.lists(st.integers(0, 7), max_size=40)),
                 k=None, precache=0)
     if len(prog["nodes"]) > 1 and draw(st.integers(0, 3)) == 0:
@@ -187,4 +200,6 @@ def run(sh):
             sh.evaluations -= 1  # record_case counted it a second time
         return un
 
-    sh.given(cases(), body, sh.budget(96, 1600), tag="sched")
+    # the sequential loop is ~20x cheaper per case than the scheduled runs: give it its own, larger share
+    sh.given(cases(workers=("debug",)), body, sh.budget(320, 6000), tag="debug")
+    sh.given(cases(), body, sh.budget(80, 1600), tag="sched")
